@@ -26,14 +26,16 @@
     [C01_bash_meaning_subword] for trees whose leaves are literals and within-word expressions made
     of literals (the within-word functions of the script interpreted directly), under two side
     conditions on the compiled automaton that have decidable sufficient forms
-    ([C01_subword_side_conditions]).  The general statement [C01_bash_meaning_statement] (commands
-    and undefined nonterminals inside words, within-word items next to commands) is NOT proved. *)
+    ([C01_subword_side_conditions]); [C01_bash_meaning_mixed] covers all of these together: trees
+    whose leaves are literals, commands, undefined nonterminals and within-word expressions made of
+    literals.  The general statement [C01_bash_meaning_statement] differs from it only by commands
+    and undefined nonterminals inside words; that part is NOT proved. *)
 From CG Require Import Model.Dfa Model.Tables Model.Glob Model.BashSem Model.Driver.
 From CG Require Import Base.Prelude Model.Ast Model.Check Spec.Rx Spec.Meaning Spec.KnownC01 Spec.Domain
      Proofs.RxFacts Proofs.MeaningFacts Proofs.MeaningLevels Proofs.DomainFacts.
 From CG Require Import Proofs.TreeFacts Proofs.GlobFacts Proofs.StripFacts Proofs.BashMeaningLit Proofs.LangBridge Proofs.C01Layers.
 From CG Require Import Spec.Invocations.
-From CG Require Import Proofs.SubTreeFacts Proofs.BashMeaningSub Proofs.SubChecks.
+From CG Require Import Proofs.SubTreeFacts Proofs.BashMeaningSub Proofs.SubChecks Proofs.BashMeaningMix.
 
 (** The full statement: the interpreter of the script of /repo HEAD on the tables of the model
     pipeline against the specification, for every validated tree in the decided domain -- within-word
@@ -389,6 +391,83 @@ Example ex_C01_subword_layer_inhabited :
   end.
 Proof. vm_compute. repeat split; reflexivity. Qed.
 Print Assumptions ex_C01_subword_layer_inhabited.
+
+(** Layers (b) and (c) together: literals, commands, undefined nonterminals, within-word expressions
+    made of literals -- everything but commands and undefined nonterminals inside words. *)
+Theorem C01_bash_meaning_mixed :
+  forall pick fuel v c om os nd a (benv : BashSem.env) (en : Meaning.env) ws p,
+    mix_tree (v_expr v) = true -> alts_nonempty (v_expr v) = true ->
+    compile_valid pick fuel v = Ok c ->
+    all_tables Bash c om os = Ok (nd, a) -> NoDup om -> valid_literal_order (c_main c) om = true ->
+    sub_orders_ok c os -> subs_deterministic c ->
+    C01_domain (v_expr v) = true ->
+    BashSem.e_ignore_case benv = false -> BashSem.e_wordbreaks benv = Meaning.e_wordbreaks en ->
+    breaks_ok (BashSem.e_wordbreaks benv) = true -> plain p = true -> printable_str p = true ->
+    (forall cm cid, Tables.index_of cm (a_commands a) = Some cid ->
+                    spec_candidates (cmd_output benv cid) = candidates en cm) ->
+    ambiguous_run en (start (v_expr v)) ws = false ->
+    match complete (v_expr v) en ws p with
+    | None => exists log, run_from Repaired (d_start (c_main c)) a benv ws p = Ok (mkresult 1 [] log)
+    | Some (req, al) =>
+        exists reply log, run_from Repaired (d_start (c_main c)) a benv ws p = Ok (mkresult 0 reply log)
+                          /\ (forall x, In x reply <-> In x req) /\ incl req al
+    end.
+Proof. exact bash_meaning_mixed. Qed.
+Check C01_bash_meaning_mixed :
+  forall pick fuel v c om os nd a (benv : BashSem.env) (en : Meaning.env) ws p,
+    mix_tree (v_expr v) = true -> alts_nonempty (v_expr v) = true ->
+    compile_valid pick fuel v = Ok c ->
+    all_tables Bash c om os = Ok (nd, a) -> NoDup om -> valid_literal_order (c_main c) om = true ->
+    sub_orders_ok c os -> subs_deterministic c ->
+    C01_domain (v_expr v) = true ->
+    BashSem.e_ignore_case benv = false -> BashSem.e_wordbreaks benv = Meaning.e_wordbreaks en ->
+    breaks_ok (BashSem.e_wordbreaks benv) = true -> plain p = true -> printable_str p = true ->
+    (forall cm cid, Tables.index_of cm (a_commands a) = Some cid ->
+                    spec_candidates (cmd_output benv cid) = candidates en cm) ->
+    ambiguous_run en (start (v_expr v)) ws = false ->
+    match complete (v_expr v) en ws p with
+    | None => exists log, run_from Repaired (d_start (c_main c)) a benv ws p = Ok (mkresult 1 [] log)
+    | Some (req, al) =>
+        exists reply log, run_from Repaired (d_start (c_main c)) a benv ws p = Ok (mkresult 0 reply log)
+                          /\ (forall x, In x reply <-> In x req) /\ incl req al
+    end.
+Print Assumptions C01_bash_meaning_mixed.
+
+(** Inhabited: [cmd (add || --k=(x|yz) || {{{probe}}}) <U> end;] through the whole model pipeline. *)
+Definition exm_e : expr :=
+  Sequence [Fallback [Terminal "add" None 0 exl_sp;
+                      Subword (Sequence [Terminal "--k=" None 1 exl_sp;
+                                         Alternative [Terminal "x" None 1 exl_sp; Terminal "yz" None 1 exl_sp] exl_sp] exl_sp)
+                              1 exl_sp;
+                      Command "probe" false 2 exl_sp] exl_sp;
+            NontermRef "U" 0 exl_sp;
+            Terminal "end" None 0 exl_sp] exl_sp.
+Definition exm_v := mkvalid "cmd" exm_e [] [] [].
+
+Example ex_C01_mixed_layer_inhabited :
+  match compile_valid (fun _ _ => O) 100 exm_v with
+  | Ok c =>
+      match all_tables Bash c ext_om exs_os with
+      | Ok (nd, a) =>
+          mix_tree exm_e = true /\ alts_nonempty exm_e = true /\ valid_literal_order (c_main c) ext_om = true
+          /\ nodup_pairs ext_om = true /\ sub_orders_okb c exs_os = true /\ subs_single c = true
+          /\ C01_domain exm_e = true /\ a_commands a = ["probe"]%string
+          /\ spec_candidates (cmd_output ext_benv 0) = candidates ext_en "probe"
+          /\ ambiguous_run ext_en (start exm_e) ["--k=yz"; "w"]%string = false
+          /\ run_from Repaired (d_start (c_main c)) a ext_benv [] "--" = Ok (mkresult 0 ["--k="] [])
+          /\ complete exm_e ext_en [] "--" = Some (["--k="], ["--k="])
+          /\ run_from Repaired (d_start (c_main c)) a ext_benv [] "P" = Ok (mkresult 0 ["P1"] [(0, "P", "")])
+          /\ complete exm_e ext_en [] "P" = Some (["P1"], ["P1"])
+          /\ run_from Repaired (d_start (c_main c)) a ext_benv ["--k=yz"; "w"] "" = Ok (mkresult 0 ["end "] [])
+          /\ complete exm_e ext_en ["--k=yz"; "w"] "" = Some (["end "], ["end "])
+          /\ run_from Repaired (d_start (c_main c)) a ext_benv ["--k="] "" = Ok (mkresult 1 [] [(0, "", "")])
+          /\ complete exm_e ext_en ["--k="] "" = None
+      | _ => False
+      end
+  | _ => False
+  end.
+Proof. vm_compute. repeat split; reflexivity. Qed.
+Print Assumptions ex_C01_mixed_layer_inhabited.
 
 (** Non-vacuity: a grammar with two || levels, a within-word expression and a command is inside
     the domain, and the specification computes the answers one expects from the README. *)
